@@ -5,8 +5,8 @@
 (*   call  {a, r, obs}   one call: action record, reply, and the delta of    *)
 (*                       the real state read off the raw words:              *)
 (*                       obs.cur = <<>> (bitmap unchanged) or <<members>>,   *)
-(*                       obs.blk = {h, ok, start, ms} per handle whose block *)
-(*                       (Start, words) differs from before the call         *)
+(*                       obs.blk = {h, ok, kind, start, ms} per handle whose block *)
+(*                       (kind, Start, words) differs from before the call         *)
 (*   panic {a, msg}      the call panicked: no action explains it            *)
 EXTENDS BitmapCodec, Json, IOUtils
 
@@ -22,7 +22,7 @@ ObsOK(obs, cur0, cur1, blk0, blk1) ==
   /\ \A i \in 1..Len(obs.blk) :
        LET o == obs.blk[i]  b == blk1[o.h] IN
        /\ b.ok = o.ok
-       /\ o.ok => b.start = o.start /\ b.S = AsSet(o.ms)
+       /\ o.ok => b.kind = o.kind /\ b.start = o.start /\ b.S = AsSet(o.ms)
   /\ \A h \in DOMAIN blk0 \ ch : blk1[h] = blk0[h]
 
 TraceInit == l = 1 /\ InitWith(1)
